@@ -37,74 +37,75 @@ func (e *env) runCLI() (classes []string) {
 	}
 	args := append(append([]string{}, cs.Args...), file)
 	var stdout, stderr bytes.Buffer
+attempts:
 	for attempt := 1; ; attempt++ {
-	stdout.Reset()
-	stderr.Reset()
-	cmd := exec.Command(c.RareBin, args...)
-	cmd.Stdout, cmd.Stderr = &stdout, &stderr
-	cmd.Env = append(os.Environ(), "GOTRACEBACK=crash") // crash: every thread dumps its own stack on SIGQUIT (a goroutine running on another thread is otherwise "stack unavailable")
-	if err := cmd.Start(); err != nil {
-		c.Inconclusive("cannot start rare: " + err.Error())
-		return nil
-	}
-	done := make(chan error, 1)
-	go func() { done <- cmd.Wait() }()
-	c.Count("cli_runs", 1)
-	// Non-termination is judged on the CPU time the child has consumed, not on
-	// wall time: a terminating run on a few input lines needs some 10 ms of CPU
-	// however loaded the machine is, a renderer that loops burns CPU without end.
-	// 4 s of CPU is >100x the need of a terminating run. The wall limit is only a
-	// backstop and by itself inconclusive.
-	const cpuLimit = 4.0
-	wallLimit := time.Now().Add(10 * time.Minute)
-	stuck, finished := false, false
-	for !finished {
-		select {
-		case <-done:
-			finished = true
-		case <-time.After(150 * time.Millisecond):
-			cpu := cpuSeconds(cmd.Process.Pid)
+		stdout.Reset()
+		stderr.Reset()
+		cmd := exec.Command(c.RareBin, args...)
+		cmd.Stdout, cmd.Stderr = &stdout, &stderr
+		cmd.Env = append(os.Environ(), "GOTRACEBACK=crash") // crash: every thread dumps its own stack on SIGQUIT (a goroutine running on another thread is otherwise "stack unavailable")
+		if err := cmd.Start(); err != nil {
+			c.Inconclusive("cannot start rare: " + err.Error())
+			return nil
+		}
+		done := make(chan error, 1)
+		go func() { done <- cmd.Wait() }()
+		c.Count("cli_runs", 1)
+		// Non-termination is judged on the CPU time the child has consumed, not on
+		// wall time: a terminating run on a few input lines needs some 10 ms of CPU
+		// however loaded the machine is, a renderer that loops burns CPU without end.
+		// 4 s of CPU is >100x the need of a terminating run. The wall limit is only a
+		// backstop and by itself inconclusive.
+		const cpuLimit = 4.0
+		wallLimit := time.Now().Add(10 * time.Minute)
+		stuck, finished := false, false
+		for !finished {
 			select {
-			case <-done: // it ended while we looked: whatever /proc showed is not about a running child
+			case <-done:
 				finished = true
-				continue
-			default:
-			}
-			if cpu >= cpuLimit {
-				stuck = true
-			}
-			if stuck || time.Now().After(wallLimit) {
-				// stuck-state evidence: ask the runtime for the goroutine dump, then kill
-				cmd.Process.Signal(syscall.SIGQUIT)
+			case <-time.After(150 * time.Millisecond):
+				cpu := cpuSeconds(cmd.Process.Pid)
 				select {
-				case <-done:
-				case <-time.After(3 * time.Minute):
-					cmd.Process.Kill()
-					<-done
-				}
-				dump := stderr.String()
-				where := ""
-				for _, ln := range strings.Split(dump, "\n") {
-					if strings.HasPrefix(ln, "rare/pkg/multiterm/") || strings.HasPrefix(ln, "rare/pkg/color") {
-						where = strings.TrimSpace(ln)
-						break
-					}
-				}
-				if stuck && where == "" && attempt < 3 {
-					// the dump did not show where it spins (signal taken by another thread): look again
-					c.Count("cli_hang_evidence_retries", 1)
+				case <-done: // it ended while we looked: whatever /proc showed is not about a running child
+					finished = true
 					continue
+				default:
 				}
-				if stuck && where != "" {
-					e.fail("hang", "`rare %s` on input %s does not terminate: it had used %.0f s of CPU (a terminating run needs ~0.01 s) and the goroutine dump taken then shows it inside %s", strings.Join(cs.Args, " "), run.Q(cs.Input), cpuLimit, where)
-				} else {
-					c.Inconclusive(fmt.Sprintf("cli run stopped (cpu-bound=%v) without a renderer frame in its dump: rare %s", stuck, strings.Join(cs.Args, " ")))
+				if cpu >= cpuLimit {
+					stuck = true
 				}
-				return classes
+				if stuck || time.Now().After(wallLimit) {
+					// stuck-state evidence: ask the runtime for the goroutine dump, then kill
+					cmd.Process.Signal(syscall.SIGQUIT)
+					select {
+					case <-done:
+					case <-time.After(3 * time.Minute):
+						cmd.Process.Kill()
+						<-done
+					}
+					dump := stderr.String()
+					where := ""
+					for _, ln := range strings.Split(dump, "\n") {
+						if strings.HasPrefix(ln, "rare/pkg/multiterm/") || strings.HasPrefix(ln, "rare/pkg/color") {
+							where = strings.TrimSpace(ln)
+							break
+						}
+					}
+					if stuck && where == "" && attempt < 3 {
+						// the dump did not show where it spins (signal taken by another thread): look again
+						c.Count("cli_hang_evidence_retries", 1)
+						continue attempts
+					}
+					if stuck && where != "" {
+						e.fail("hang", "`rare %s` on input %s does not terminate: it had used %.0f s of CPU (a terminating run needs ~0.01 s) and the goroutine dump taken then shows it inside %s", strings.Join(cs.Args, " "), run.Q(cs.Input), cpuLimit, where)
+					} else {
+						c.Inconclusive(fmt.Sprintf("cli run stopped (cpu-bound=%v) without a renderer frame in its dump: rare %s", stuck, strings.Join(cs.Args, " ")))
+					}
+					return classes
+				}
 			}
 		}
-	}
-	break
+		break
 	}
 	se := stderr.String()
 	if i := strings.Index(se, "panic: "); i >= 0 && strings.Contains(se, "goroutine ") {
